@@ -34,6 +34,7 @@ type NetOp struct {
 	Specs   []NetSpec `json:"specs,omitempty"` // fetch / push: explicit refspecs
 	Mirror  bool      `json:"mirror,omitempty"` // push --mirror
 	Form    string    `json:"form,omitempty"`   // merge: how BRANCH is spelled: "", heads, refs, short (last path segment), peel (B^), tilde0 (B~0)
+	SQLFail int       `json:"sql_fail,omitempty"` // the n-th SQL statement issued during the operation (any node's ref store) fails
 }
 
 type NetSpec struct {
@@ -184,6 +185,14 @@ func genNetPlan(r *Rand, tier string, focus string, faults bool) NetPlan {
 		}
 		op.Skew = skew
 		p.Ops = append(p.Ops, op)
+	}
+	if focus == "C10" {
+		for i := range p.Ops {
+			o := &p.Ops[i]
+			if o.Node != "R" && (o.Op == "fetch" || o.Op == "pull" || o.Op == "merge" || o.Op == "push") && i > 3 && r.Chance(0.12) {
+				o.SQLFail = r.Range(1, 40)
+			}
+		}
 	}
 	if faults {
 		nf := r.Range(1, 4)
@@ -721,7 +730,25 @@ func execNet(t *testing.T, raw json.RawMessage, res *Result, focus string) {
 			res.Invalid("bad op %q", op.Op)
 			return
 		}
+		sqlFired := false
+		if op.SQLFail > 0 {
+			if op.SQLFail > 100000 {
+				res.Invalid("sql_fail")
+				return
+			}
+			before := SQLFault.Fired
+			SQLFault.Arm(op.SQLFail)
+			defer SQLFault.Arm(0)
+			sqlFired = false
+			_ = before
+		}
+		firedBefore := SQLFault.Fired
 		cr := n.Run(t, args...)
+		SQLFault.Arm(0)
+		if SQLFault.Fired > firedBefore {
+			sqlFired = true
+			res.fault("sql_statement_error", 1)
+		}
 		res.stat("sim_time_s", cr.Out.SimTime.Seconds())
 		if cr.Out.PanicVal != nil || cr.Out.Deadlock {
 			bubbleProblems(res, cr.Out, when+" `wrgl "+strings.Join(args, " ")+"`")
@@ -735,6 +762,9 @@ func execNet(t *testing.T, raw json.RawMessage, res *Result, focus string) {
 			if f.At > reqStart && f.At <= net.Stats.Requests {
 				faultDuring = true
 			}
+		}
+		if sqlFired {
+			faultDuring = true
 		}
 		if faultDuring {
 			res.probe("fault_during_op", 1)
